@@ -161,11 +161,14 @@ type isoLayout struct {
 	t3 []*model3d.Triangle
 	lo model2d.Coord
 	hi model2d.Coord
+	// number of UV triangles whose corners run clockwise / counter-clockwise
+	cw, ccw int
 }
 
 func genIsoLayout(c *hlib.Ctx) *isoLayout {
 	l := &isoLayout{}
 	nb := 1 + c.Rng.Intn(4)
+	relabel := c.Rng.Intn(2) == 0 // half of the layouts keep the stored order of every triangle
 	for b := 0; b < nb; b++ {
 		s := pow2(-1 - c.Rng.Intn(3))
 		nx, ny := 1+c.Rng.Intn(3), 1+c.Rng.Intn(3)
@@ -185,7 +188,10 @@ func genIsoLayout(c *hlib.Ctx) *isoLayout {
 				h[i][j] = model3d.XYZ(float64(4*b+i)+dy(c, 1, 2)/4, float64(j)+dy(c, 1, 2)/4, dy(c, 2, 3))
 			}
 		}
-		uvp := func(i, j int) model2d.Coord { return model2d.XY(ox+s*float64(i), oy+s*float64(j)) }
+		// each block through its own symmetry of the square (mirrored / transposed / turned chart; half
+		// of them orientation reversing: clockwise UV triangles); the block stays inside its slot
+		sym := pickBoxSym(c)
+		uvp := func(i, j int) model2d.Coord { return sym.at(ox, oy, s, s, nx, ny, i, j) }
 		var tris [][3][2]int
 		for i := 0; i < nx; i++ {
 			for j := 0; j < ny; j++ {
@@ -204,12 +210,21 @@ func genIsoLayout(c *hlib.Ctx) *isoLayout {
 			}
 			kept++
 			rot := c.Rng.Intn(3)
+			rev := relabel && c.Rng.Intn(3) == 0 // corners stored in the reverse order (3-D and UV alike)
 			var u [3]model2d.Coord
 			var p3 model3d.Triangle
 			for k := 0; k < 3; k++ {
 				a := t[(k+rot)%3]
+				if rev {
+					a = t[(3-k+rot)%3]
+				}
 				u[k] = uvp(a[0], a[1])
 				p3[k] = h[a[0]][a[1]]
+			}
+			if sym.reverses() != rev {
+				l.cw++
+			} else {
+				l.ccw++
 			}
 			l.uv = append(l.uv, u)
 			tt := p3
@@ -284,7 +299,8 @@ func (l *isoLayout) contained(q model2d.Coord) bool {
 func kindNearTree(c *hlib.Ctx) {
 	l := genIsoLayout(c)
 	perm := c.Rng.Perm(len(l.uv))
-	ordered := &isoLayout{lo: l.lo, hi: l.hi}
+	ordered := &isoLayout{lo: l.lo, hi: l.hi, cw: l.cw, ccw: l.ccw}
+	c.Stat("near-tree-uv-orientation:"+orientLabel(l.cw, l.ccw), 1)
 	for _, i := range perm {
 		ordered.uv = append(ordered.uv, l.uv[i])
 		ordered.t3 = append(ordered.t3, l.t3[i])
@@ -376,6 +392,7 @@ func kindNearMap(c *hlib.Ctx) {
 	}
 	sect := l.section(true)
 	c.Stat(fmt.Sprintf("near-map-triangles-%02d", (len(l.uv)+7)/8*8), 1)
+	c.Stat("near-map-uv-orientation:"+orientLabel(l.cw, l.ccw), 1)
 	for k := 0; k < 4; k++ {
 		q, qd := l.query(c)
 		if l.contained(q) {
